@@ -77,6 +77,15 @@ def o_typestate(P, E, kinds=None):
                 if (term or unsub) and ret != 0:
                     witnesses.setdefault(("is_subscribed not false", "after " + ("terminal" if term else "unsubscribe")),
                                          hist + ("is_subscribed",))
+            # (vii) liveness: a live observer (no terminal, not unsubscribed) reports is_subscribed and delivers
+            if not term and not unsub:
+                for (inv, st2, ret, _) in table[("is_subscribed", bits)]:
+                    if ret == 0:
+                        witnesses.setdefault(("live delivery lost", "is_subscribed false on a live observer"), hist + ("is_subscribed",))
+                for ev in ("next", "error", "complete"):
+                    for (inv, st2, ret, tear) in table[(ev, bits)]:
+                        if list(inv) != [ev]:
+                            witnesses.setdefault(("live delivery lost", "%s on a live observer invokes %s" % (ev, list(inv) or "nothing")), hist + (ev,))
             if len(hist) >= 6:
                 continue
             for ev in EVENTS:
@@ -530,7 +539,66 @@ def s_remove_and_test(P, E):
             if held.get(c.bb, set()) & set(ua):
                 r.violate((b.nid, "emission under unscribers guard"),
                           "downstream completion/finalize runs while the unscribers guard is held", body=b, line=c.line)
+    # polarity: the downstream completion sits on the EMPTY edge of the emptiness test, and only there
+    comps = [c.bb for c in b.calls if _subscriber_call(b, c, ("obs_complete",))]
+    tested = False
+    for tb in sorted(b.reach):
+        t = b.blocks[tb]["term"]
+        if t["k"] != "switch" or t["discr"]["k"] not in ("copy", "move"):
+            continue
+        pol = _emptiness_polarity(b, t["discr"], {c.bb for c in tst})
+        if pol is None:
+            continue
+        tested = True
+        zero_t = [x for v_, x in t["targets"] if v_ == 0]
+        false_bb = zero_t[0] if zero_t else t["otherwise"]
+        true_bb = t["otherwise"] if zero_t else None
+        if true_bb is None:
+            continue
+        empty_bb, other_bb = (true_bb, false_bb) if pol else (false_bb, true_bb)
+        r.instance((b.nid, "last one out"), True, "emptiness switch bb%d: empty edge -> bb%d" % (tb, empty_bb))
+        if comps and not any(cb in b.reachable_from(empty_bb) or cb == empty_bb for cb in comps):
+            r.violate((b.nid, "completion not on the empty edge"),
+                      "when the last upstream has completed (the map is empty) sink_complete does not complete downstream", body=b, line=t.get("line"))
+        if any((cb in b.reachable_from(other_bb) or cb == other_bb) for cb in comps):
+            r.violate((b.nid, "completion while upstreams remain"),
+                      "sink_complete completes downstream on the edge where other upstreams are still registered", body=b, line=t.get("line"))
+    if comps and not tested:
+        r.violate((b.nid, "completion does not depend on the emptiness test"),
+                  "sink_complete's downstream completion is not decided by whether the map became empty", body=b)
     return r
+
+
+def _emptiness_polarity(b, discr, test_bbs, depth=0):
+    """True if the (boolean) operand is `map is empty`, False if it is its negation, None if unrelated"""
+    if depth > 5 or discr.get("k") not in ("copy", "move"):
+        return None
+    out = None
+    for t in b.operand_prov(discr):
+        if t[0] == "ret" and t[1] in test_bbs and not t[2]:
+            c = b.call_at(t[1])
+            if c is not None and c.path.endswith("::is_empty"):
+                out = True
+        elif t[0] == "val":
+            rv = b.blocks[t[1][0]]["stmts"][t[1][1]]["rv"]
+            if rv.get("k") == "binop" and rv.get("op") in ("Eq", "Ne", "Gt", "Le", "Lt", "Ge"):
+                ops = (rv["a"], rv["b"])
+                lens = [o for o in ops if o.get("k") in ("copy", "move") and
+                        any(x[0] == "ret" and x[1] in test_bbs for x in b.operand_prov(o))]
+                zero = [o for o in ops if o.get("k") == "const" and o.get("int") in (0, 1)]
+                if len(lens) == 1 and len(zero) == 1:
+                    z = zero[0]["int"]
+                    len_first = ops[0] is lens[0]
+                    op = rv["op"]
+                    if z == 0:
+                        out = {"Eq": True, "Ne": False, "Gt": (False if len_first else None), "Le": (True if len_first else None),
+                               "Lt": (None if len_first else False), "Ge": (None if len_first else True)}.get(op)
+                    else:       # len < 1  /  len >= 1
+                        out = {"Lt": (True if len_first else None), "Ge": (False if len_first else None)}.get(op)
+            elif rv.get("k") == "unop" and rv.get("op") == "Not":
+                inner = _emptiness_polarity(b, rv.get("a") or rv.get("op_"), test_bbs, depth + 1)
+                out = None if inner is None else (not inner)
+    return out
 
 
 def s_finalize_shape(P, E):
